@@ -422,11 +422,11 @@ def c17_main():
                     for i, r_ in enumerate(b["regions"], 1):
                         g.write("%s\t%d\t%d\tr%d\tx%d\n" % (chrom_name(r_[0]), r_[1], r_[2], i, i))
                 f.write(json.dumps({"mode": "aob", "path": b["bwpath"], "bed": bed, "regions": b["regions"], "items": b["items"], "name": b["name"], "ds": b["ds"],
-                                    "minmax": 1, "threads": -1, "chroms": [chrom_name(c_) for c_ in range(1, 5)], "tool": "average"}) + "\n")
+                                    "minmax": 1, "threads": -1, "chroms": [chrom_name(c_) for c_ in range(1, 5)], "tool": "average", "statslist": k % 2}) + "\n")
         subprocess.run([VENV_PY, os.path.join(ROOT, "pyverif", "py_driver.py"), moddir, pin, pout], timeout=900, stdout=subprocess.PIPE, stderr=subprocess.PIPE)
         for line in open(pout):
             o = json.loads(line)
-            for kk in ("path", "bed", "chroms", "mode"):
+            for kk in ("path", "bed", "chroms", "mode", "statslist"):
                 o.pop(kk, None)
             obs.append(o)
         run.cov["python_average_over_bed_runs"] = len(beh[::3])
